@@ -111,6 +111,21 @@ func checkC13(r *Run) {
 			break
 		}
 	}
+	// go_package given as a bare path whose last element is no identifier: the package name is gogo's cleaned form of it
+	for _, mk := range []func() *descgen.Entry{descgen.K7, descgen.K5} {
+		add(mk, false)
+		a, b := cases[len(cases)-2], cases[len(cases)-1]
+		b.DottedPath, b.HyphenPath, b.DigitPath, b.SameName, b.ForeignGoPackage, b.FullPathOverride, b.MixedCasePkg, b.PrefixTarget, b.DecoyPrefixOverrides = false, false, false, false, false, false, false, false, false
+		a.MixedCasePkg = false
+		b.CleanedPkgName = true
+		b.Name += "c"
+		b.Tags = append(b.Tags, "go-package-path-needs-cleaning")
+		pairs[len(pairs)-1].B = b.Name
+		pairs[len(pairs)-1].Label = "separate-package/override=false/cleaned-package-name"
+		if !r.thorough() {
+			break
+		}
+	}
 	// the isolated shapes (map<string,bytes>, lists and maps of empty messages, by-value duration branches ...)
 	for i, e := range descgen.Exotic() {
 		if r.thorough() || i%2 == 0 {
@@ -139,6 +154,24 @@ func checkC15(r *Run) {
 		if r.thorough() || i < 10 {
 			makers = append(makers, m)
 		}
+	}
+	// the struct package reached under two spellings (alias + override as in the README for message types, the
+	// full path in a cast type): sort-on only, nothing lives at that path
+	for v := 0; v < 2; v++ {
+		v := v
+		makers = append(makers, func() *descgen.Entry {
+			level, ref := descgen.F("Level", descgen.Sc(ir.Int64), descgen.Cast("example.com/api/types.Level")), descgen.F("Ref", descgen.MsgT("AliasLeaf"))
+			pair := descgen.M("AliasPair", level, ref)
+			if v == 1 {
+				pair = descgen.M("AliasPair", ref, level)
+			}
+			f := &ir.File{Name: fmt.Sprintf("k16alias%d.proto", v), Package: fmt.Sprintf("k16alias%d", v), Messages: []*ir.Message{pair, descgen.M("AliasLeaf", descgen.F("Name"))}}
+			descgen.AutoComments(f)
+			c := descgen.BaseConfig("AliasPair")
+			c.DefaultPackageName, c.TargetPackageName = "types", "tfschema"
+			c.ImportPathOverrides = map[string]string{"types": "example.com/api/types"}
+			return &descgen.Entry{Name: fmt.Sprintf("k16alias%d", v), File: f, Cfg: c, Tags: []string{"l1-only", "two-spellings-of-one-package"}}
+		})
 	}
 	n := r.pick(4, 70)
 	for i := 0; i < n; i++ {
@@ -194,6 +227,9 @@ func checkC15(r *Run) {
 	var pairs []rt.Pair
 	for mi, m := range makers {
 		e := m()
+		if contains(e.Tags, "l1-only") {
+			continue
+		}
 		e.Cfg.Sort, e.Cfg.SortSet = false, true
 		prfName := e.Name
 		a := caseFrom(descgen.Rename(e, e.Name+"o0"))
